@@ -22,6 +22,16 @@ sys.path.insert(0, os.path.dirname(os.path.abspath(__file__)))
 import texpr
 from texpr import T, hexs, rs
 
+ATTR_RNG = random.Random(0)
+
+
+def shuffled(lines):
+    """helper attributes in a random order (the macros must not depend on it)"""
+    ls = list(lines)
+    ATTR_RNG.shuffle(ls)
+    return ''.join(ls)
+
+
 IDENTS = ['Foo', 'Bar', 'Baz', 'Qux', 'Node', 'Item', 'Wrap', 'Pair', 'Msg', 'Cfg', 'r#Type', 'r#Box2', 'A1', 'Zed_9']
 FIELDS = ['a', 'b', 'c', 'value', 'next', 'r#type', 'r#mod', 'x1', '_y', 'data', 'len', 'marker']
 VARIANTS = ['A', 'B', 'C', 'None_', 'Some_', 'Leaf', 'Branch', 'Unit', 'V1', 'r#Self2']
@@ -172,7 +182,7 @@ class Item:
             return T('ph', r.choice(P))
         if c < 0.40 and self.earlier:
             it = r.choice(self.earlier)
-            if it.encodable:
+            if it.encodable and it.has_values():
                 args = [texpr.sized(r, 1) if True else None for _ in it.params]
                 args = [a if a.can_encode() else T('u', n=8) for a in args]
                 return Adt(it, args)
@@ -235,9 +245,9 @@ class Item:
             else:
                 shape, fields = self.gen_fields(r)
                 v = Variant(nm, shape, fields, docs=doc_lines(r))
-            if r.random() < 0.15:
+            if r.random() < 0.2:
                 v.skip = True
-            if r.random() < 0.25:
+            if r.random() < (0.5 if v.skip else 0.25):
                 v.index = r.randrange(0, 256)
             vs.append(v)
         # the indices of the non-skipped variants must be pairwise distinct (the codec derive checks it)
@@ -324,15 +334,17 @@ class Item:
         return '<' + ', '.join(g) + '>' if g else ''
 
     def render_field(self, f, indent, pub='pub '):
-        s = render_docs(f.docs, indent)
+        attrs = []
         if f.skip:
-            s += f'{indent}#[codec(skip)]\n'
+            attrs.append(f'{indent}#[codec(skip)]\n')
         if f.compact:
-            s += f'{indent}#[codec(compact)]\n'
+            attrs.append(f'{indent}#[codec(compact)]\n')
         if f.encoded_as:
-            s += f'{indent}#[codec(encoded_as = "<u32 as scale::HasCompact>::Type")]\n'
+            attrs.append(f'{indent}#[codec(encoded_as = "<u32 as scale::HasCompact>::Type")]\n')
         if f.rename is not None:
-            s += f'{indent}#[scale_info(rename = {rs(f.rename)})]\n'
+            attrs.append(f'{indent}#[scale_info(rename = {rs(f.rename)})]\n')
+        # doc lines keep their relative order; helper attributes are interleaved in a random order
+        s = shuffled(attrs) + render_docs(f.docs, indent) if ATTR_RNG.random() < 0.5 else render_docs(f.docs, indent) + shuffled(attrs)
         ty = self.src_type(f.ty)
         s += f'{indent}{pub}{f.ident}: {ty},\n' if f.ident is not None else f'{indent}{pub}{ty},\n'
         return s
@@ -382,10 +394,12 @@ class Item:
             s += f'{indent}pub enum {self.ident}{self.generics_decl()} {{\n'
             for v in self.variants:
                 s += render_docs(v.docs, indent + '    ')
+                vattrs = []
                 if v.skip:
-                    s += f'{indent}    #[codec(skip)]\n'
+                    vattrs.append(f'{indent}    #[codec(skip)]\n')
                 if v.index is not None:
-                    s += f'{indent}    #[codec(index = {v.index})]\n'
+                    vattrs.append(f'{indent}    #[codec(index = {v.index})]\n')
+                s += shuffled(vattrs)
                 s += f'{indent}    {v.ident}' + self.render_shape(v.shape, v.fields, indent + '    ', False)
                 if v.disc is not None:
                     s += f' = {v.disc}'
@@ -522,6 +536,7 @@ def main():
     a = ap.parse_args()
     texpr.NO_BITVEC = a.fp
     r = random.Random(a.seed * 7919 + 13)
+    ATTR_RNG.seed(a.seed * 31 + 5)
     items = []
     for k in range(a.n):
         depth = r.choice([0, 0, 1, 2, 3])
@@ -599,7 +614,10 @@ def main():
         if it.has_values():
             seenv = set()
             for _ in range(a.vals):
-                e, v = it.value(r, args)
+                try:
+                    e, v = it.value(r, args)
+                except (IndexError, ValueError, RecursionError):
+                    continue   # no value can be written for this instantiation (e.g. an uninhabited member type)
                 if v not in seenv:
                     seenv.add(v)
                     vals.append((e, v))
